@@ -309,6 +309,12 @@ def main(argv: list) -> int:
         except ModuleNotFoundError as e:
             print(f"INCONCLUSIVE property={p} reason=no check module ({e})")
             r = 2
+        except Exception as e:  # a failure of the machinery itself is never a verdict on the library
+            import traceback
+
+            traceback.print_exc()
+            print(f"INCONCLUSIVE property={p} reason=the check itself failed ({type(e).__name__}: {str(e)[:200]})")
+            r = 2
         if r == 1 or (r == 2 and rc == 0):
             rc = r
     return rc
